@@ -24,6 +24,10 @@ func (w *writer) multi(indent, s string) {
 func render(cp *cplan) {
 	f := cp.f
 	w := &writer{}
+	for _, l := range cp.lead {
+		w.line(l)
+	}
+	f.LeadingBlankLines = len(cp.lead)
 	if cp.comment != "" {
 		w.multi("", cp.comment)
 	}
@@ -233,6 +237,9 @@ func Shape(t *Tree) string {
 	sb.WriteString(t.Layout)
 	for _, f := range t.Files {
 		sb.WriteString("|" + f.Role)
+		if f.LeadingBlankLines > 0 {
+			sb.WriteString("^")
+		}
 		for _, m := range f.Methods {
 			sb.WriteString(";" + m.Role + ":" + m.AnnoClass() + ":" + m.AnnoLayout + ":")
 			counts := map[string]int{}
